@@ -77,3 +77,39 @@ Example C10_nonvacuous :
     alookup "m" (md_nprops md') = Some (mkpm DF32 false None None None) /\
     alookup "v" (md_nprops md') = Some (mkpm DI8 true None None None).
 Proof. eexists. split; [vm_compute; reflexivity|]. repeat split. Qed.
+
+(* ---------------------------------------------------------------------------------------------------------------
+   BACKEND WRITERS WITH axis_* OVERRIDE LISTS (geff.write / write_nx / write_rx / write_sg -> update_metadata_axes ->
+   axes_from_lists, modelled in Meta.v with pydantic's validation order; the names below are those of Meta.v).
+   The stored axes are faithful to the lists: one axis per name, in order, and axis k is built from entry k of every
+   list that is given -- each field on its own (an offset does not need a scale, a unit does not need a type ...). *)
+From Geff Require Import Meta MetaAxesLemmas.
+
+Theorem C10_axes_from_lists : forall ls l,
+  axes_from_lists ls = Ok l ->
+  match al_names ls with
+  | None => l = []
+  | Some names =>
+      List.length l = List.length names /\
+      forall k a, nth_error l k = Some a ->
+        exists nm src, nth_error names k = Some nm /\
+          pick (al_types ls) k = Ok (s_type src) /\ pick (al_units ls) k = Ok (s_unit src) /\
+          pick (al_scales ls) k = Ok (s_scale src) /\ pick (al_scaled_units ls) k = Ok (s_sunit src) /\
+          pick (al_offset ls) k = Ok (s_offset src) /\ pick (al_roi_min ls) k = Ok (s_min src) /\
+          pick (al_roi_max ls) k = Ok (s_max src) /\ axis_built_from nm src a
+  end.
+Proof. exact axes_from_lists_faithful. Qed.
+Print Assumptions C10_axes_from_lists.
+
+Theorem C10_axis_offset_kept : forall ls l k a off,
+  axes_from_lists ls = Ok l -> nth_error l k = Some a ->
+  forall offs, al_offset ls = Some offs -> nth_error offs k = Some (JFlt off) -> ax_offset a = Some off.
+Proof. exact axes_from_lists_offset. Qed.
+Print Assumptions C10_axis_offset_kept.
+
+Example C10_axes_nonvacuous :
+  axes_from_lists (mkAL (Some [JStr "t"; JStr "x"]) None (Some [JStr "time"; JNull]) (Some [JNull; JFlt (Fin 512)])
+                        None (Some [JFlt (Fin 102400); JNull]) None None)
+  = Ok [mkAxis "t" (Some "time") None None None None None (Some (Fin 102400));
+        mkAxis "x" None None None None (Some (Fin 512)) None None].
+Proof. vm_compute. reflexivity. Qed.
